@@ -375,6 +375,11 @@ TreeSet_isub(BTree* self, PyObject* other)
     else {
         iter = PyObject_GetIter(other);
         if (iter == NULL) {
+            /* Not iterable: let the other operand try.  Any other failure
+             * (the operand could not be loaded, ...) is the caller's. */
+            if (!PyErr_ExceptionMatches(PyExc_TypeError)) {
+                return NULL;
+            }
             PyErr_Clear();
             Py_INCREF(Py_NotImplemented);
             return Py_NotImplemented;
@@ -451,6 +456,11 @@ TreeSet_ixor(BTree* self, PyObject* other)
     else {
         iter = PyObject_GetIter(other);
         if (iter == NULL) {
+            /* Not iterable: let the other operand try.  Any other failure
+             * (the operand could not be loaded, ...) is the caller's. */
+            if (!PyErr_ExceptionMatches(PyExc_TypeError)) {
+                return NULL;
+            }
             PyErr_Clear();
             Py_INCREF(Py_NotImplemented);
             return Py_NotImplemented;
@@ -507,6 +517,12 @@ TreeSet_iand(BTree* self, PyObject* other)
 
     iter = PyObject_GetIter(other);
     if (iter == NULL) {
+        /* Not iterable: let the other operand try.  Any other failure
+         * (the operand could not be loaded, ...) is the caller's. */
+        Py_DECREF(tmp_list);
+        if (!PyErr_ExceptionMatches(PyExc_TypeError)) {
+            return NULL;
+        }
         PyErr_Clear();
         Py_INCREF(Py_NotImplemented);
         return Py_NotImplemented;
